@@ -87,18 +87,25 @@ def _run(db, ctx):
         no_best = any(r[0] == 'switch' and norm(r[1]) == ('discr', ('v', best)) and r[2] in (('notin', [1]), ('eq', 0)) for r in rels)
         sc = X.canon(b['$score'])
         if has_best:
-            # must be guarded by a truth of an expression comparing score with best.score using > (or >=)
-            okc = False
-            for r in rels:
-                if r[0] in ('true', 'gt', 'ge'):
-                    txt = X.canon(r[1]) + (X.canon(r[2]) if len(r) > 3 and isinstance(r[2], tuple) else '')
-                    if 'score_position' in txt and '.score' in txt:
-                        # make sure the dominant term is score > best.score
-                        for x in X.walk(r[1] if r[0] == 'true' else ('bin', 'Gt' if r[0] == 'gt' else 'Ge', r[1], r[2])):
+            # on every path into the replacement the exact score was compared with the current best's score: score > best.score
+            # (>=, or == with a position tie-break, on a path of a short-circuit disjunction)
+            def exact_cmp(rs, allow_eq):
+                for r in rs:
+                    if r[0] in ('true', 'gt', 'ge', 'lt', 'le', 'eq'):
+                        if r[0] == 'true':
+                            e_ = r[1]
+                        else:
+                            e_ = ('bin', {'gt': 'Gt', 'ge': 'Ge', 'lt': 'Lt', 'le': 'Le', 'eq': 'Eq'}[r[0]], r[1], r[2])
+                        for x in X.walk(e_):
                             if x[0] == 'bin' and x[1] in ('Gt', 'Ge') and 'score_position' in X.canon(x[2]) and X.canon(x[3]).endswith('.score'):
-                                okc = True
+                                return True
                             if x[0] == 'bin' and x[1] in ('Lt', 'Le') and 'score_position' in X.canon(x[3]) and X.canon(x[2]).endswith('.score'):
-                                okc = True
+                                return True
+                            if allow_eq and x[0] == 'bin' and x[1] == 'Eq' and {('score_position' in X.canon(x[2])), X.canon(x[3]).endswith('.score')} == {True} :
+                                return True
+                return False
+            alts = G.expand_alternatives(G.alternatives(f, X.Rec(f, db, ite=True), bi))
+            okc = all(exact_cmp(a_, len(alts) > 1) for a_ in alts) and any(exact_cmp(a_, False) for a_ in alts)
             if okc:
                 ctx.ok('R3.4', f, 'best replaced only when the exact score beats the current best', ['REAL > REAL (ties by position)'])
             else:
